@@ -125,14 +125,7 @@ Proof.
     (eapply wf_types_incl; [|exact Hwf]); intros x [Hx|[]]; subst; cbn; auto.
 Qed.
 
-(* ---- the reference-context conversion does not obey the rule ------------------------------------ *)
-Theorem cast_assignable_between_defs_refuted :
-  exists lhs target,
-    wf_types [lhs; target] = true /\ is_type_def lhs = true /\ is_type_def target = true /\
-    cast_ok lhs target = false /\            (* the value conversion is (rightly) refused *)
-    cast_assignable_ok lhs target = true.    (* the reference conversion is accepted *)
-Proof. exists (Def 1 (Prim PZahl)), (Def 2 (Prim PZahl)). vm_compute. repeat split; reflexivity. Qed.
-
+(* ---- the reference-context conversion (`x als T` as assignment target / Referenz argument) ------- *)
 Lemma nodes_true_underlying t : incl (nodes (true_underlying t)) (nodes t).
 Proof.
   induction t as [p| | |e IH|i u IH|i u IH|i|n|i u IH]; cbn [true_underlying nodes]; try apply incl_refl;
@@ -142,20 +135,126 @@ Qed.
 Lemma tlu_true_underlying t : true_list_underlying (true_underlying t) = true_list_underlying t.
 Proof. induction t; cbn [true_list_underlying true_underlying]; try reflexivity; try assumption. rewrite tlu_underlying; reflexivity. Qed.
 
-(* what does hold: it only relates types with the same representation (DeepEqual), and covers every
-   conversion between a definition and its base *)
-Theorem cast_assignable_partial a b :
+Lemma cast_assignable_valid a b :
+  cast_assignable_ok a b = true -> equal (true_underlying a) (true_underlying b) = true.
+Proof. unfold cast_assignable_ok. destruct (equal (true_underlying a) (true_underlying b)); [reflexivity|]. cbn. intros H; exact H. Qed.
+
+(* it only ever relates types with the same representation (DeepEqual) *)
+Theorem cast_assignable_representation a b :
   wf_types [a; b] = true -> cast_assignable_ok a b = true -> deep_equal a b = true.
 Proof.
-  intros Hwf H. unfold cast_assignable_ok, equal in H. rewrite !true_underlying_fixed in H.
+  intros Hwf H. apply cast_assignable_valid in H. unfold equal in H. rewrite !true_underlying_fixed in H.
   apply wf_types_spec in Hwf. cbn [flat_map] in Hwf. rewrite app_nil_r in Hwf.
   apply ty_eqb_eq_consistent in H.
   - unfold deep_equal. rewrite <- (tlu_true_underlying a), <- (tlu_true_underlying b), H. apply ty_eqb_refl.
   - intros x y Hx Hy. apply Hwf; apply in_or_app; [left|right]; apply nodes_true_underlying; assumption.
 Qed.
 
+Lemma nodes_sub x t : In x (nodes t) -> incl (nodes x) (nodes t).
+Proof.
+  induction t as [p| | |e IH|i u IH|i u IH|i|n|i u IH]; cbn [nodes]; intros H; try contradiction.
+  - apply IH; exact H.
+  - destruct H as [H|H]; [subst; apply incl_refl| apply incl_tl, IH; exact H].
+  - destruct H as [H|H]; [subst; apply incl_refl| apply incl_tl, IH; exact H].
+  - destruct H as [H|H]; [subst; apply incl_refl| apply incl_tl, IH; exact H].
+Qed.
+
+Lemma wf_pair_incl a b a' b' :
+  incl (nodes a') (nodes a) -> incl (nodes b') (nodes b) -> wf_types [a; b] = true -> wf_types [a'; b'] = true.
+Proof.
+  intros Ha Hb H. apply wf_types_spec. apply wf_types_spec in H. cbn [flat_map] in *. rewrite app_nil_r in *.
+  eapply consistent_incl; [|exact H]. intros x Hx. apply in_app_or in Hx. apply in_or_app.
+  destruct Hx as [Hx|Hx]; [left; apply Ha| right; apply Hb]; exact Hx.
+Qed.
+
+Lemma equal_true_underlying a b : wf_types [a; b] = true -> equal a b = true -> true_underlying a = true_underlying b.
+Proof.
+  intros Hwf H. apply (equal_same_underlying a b Hwf) in H.
+  rewrite (true_underlying_step a), (true_underlying_step b), H. reflexivity.
+Qed.
+
+Lemma cast_type_def_base t b : cast_type_def t = Some b -> true_underlying t = true_underlying b /\ incl (nodes b) (nodes t).
+Proof.
+  unfold cast_type_def. destruct (underlying t) as [p| | |e|j v|j v|j|n|j v] eqn:U; intros H; try discriminate H.
+  inversion H; subst v; clear H. split.
+  - rewrite (true_underlying_step t), U. reflexivity.
+  - apply underlying_def_in in U. apply nodes_sub in U. intros x Hx. apply U. right. exact Hx.
+Qed.
+
+(* The reference cast obeys the same definition rule as the value cast: when a definition is involved
+   it is accepted exactly for equivalent types (no conversion) and between a definition and its own base. *)
+Theorem cast_assignable_def_rule lhs target :
+  wf_types [lhs; target] = true ->
+  is_type_def lhs || is_type_def target = true ->
+  (cast_assignable_ok lhs target = true <->
+   equal lhs target = true \/
+   (exists b, cast_type_def lhs = Some b /\ equal b target = true) \/
+   (exists b, cast_type_def target = Some b /\ equal b lhs = true)).
+Proof.
+  intros Hwf Hd. rewrite !is_type_def_cast in Hd. split.
+  - intros H. pose proof (cast_assignable_valid _ _ H) as Hv. unfold cast_assignable_ok in H. rewrite Hv in H.
+    destruct (equal lhs target) eqn:E; [left; reflexivity| right].
+    destruct (cast_type_def target) as [tu|] eqn:CT, (cast_type_def lhs) as [lu|] eqn:CL; cbn in Hd, H; try discriminate Hd.
+    + apply orb_true_iff in H. destruct H as [H|H]; [right; exists tu| left; exists lu]; (split; [reflexivity| rewrite equal_sym; exact H]).
+    + rewrite orb_false_r in H. right. exists tu. split; [reflexivity| rewrite equal_sym; exact H].
+    + left. exists lu. split; [reflexivity| rewrite equal_sym; exact H].
+  - intros H.
+    assert (Hv : equal (true_underlying lhs) (true_underlying target) = true).
+    { destruct H as [H|[[b [Hb H]]|[b [Hb H]]]].
+      - rewrite (equal_true_underlying _ _ Hwf H). apply equal_refl.
+      - destruct (cast_type_def_base _ _ Hb) as [Ht Hn]. rewrite Ht.
+        rewrite (equal_true_underlying b target); [apply equal_refl| |exact H].
+        eapply wf_pair_incl; [exact Hn| apply incl_refl| exact Hwf].
+      - destruct (cast_type_def_base _ _ Hb) as [Ht Hn]. rewrite Ht.
+        rewrite <- (equal_true_underlying b lhs); [apply equal_refl| |exact H].
+        eapply wf_pair_incl; [exact Hn| apply incl_refl|].
+        eapply wf_types_incl; [|exact Hwf]. intros x [Hx|[Hx|[]]]; subst; cbn; auto. }
+    unfold cast_assignable_ok. rewrite Hv.
+    destruct (equal lhs target) eqn:E; [rewrite andb_false_r; reflexivity|].
+    destruct H as [H|[[b [Hb H]]|[b [Hb H]]]]; [discriminate H| |].
+    + rewrite Hb. destruct (cast_type_def target); cbn; rewrite (equal_sym target b), H; rewrite ?orb_true_r; reflexivity.
+    + rewrite Hb. cbn. rewrite (equal_sym lhs b), H. reflexivity.
+Qed.
+
+(* ... hence it agrees with the value cast wherever a definition is converted (Variable aside) *)
+Theorem cast_assignable_matches_cast lhs target :
+  wf_types [lhs; target] = true ->
+  is_any lhs = false -> is_any target = false ->
+  is_type_def lhs || is_type_def target = true ->
+  cast_assignable_ok lhs target = equal lhs target || cast_ok lhs target.
+Proof.
+  intros Hwf Hl Ht Hd.
+  pose proof (cast_assignable_def_rule lhs target Hwf Hd) as R1.
+  pose proof (cast_def_rule lhs target Hl Ht Hd) as R2.
+  destruct (cast_assignable_ok lhs target) eqn:A, (equal lhs target) eqn:E, (cast_ok lhs target) eqn:C; cbn; try reflexivity; exfalso.
+  - destruct (proj1 R1 eq_refl) as [H|H]; [discriminate H|]. apply R2 in H. discriminate H.
+  - assert (false = true) by (apply R1; left; reflexivity). discriminate.
+  - assert (false = true) by (apply R1; left; reflexivity). discriminate.
+  - assert (false = true) by (apply R1; right; apply R2; reflexivity). discriminate.
+Qed.
+
 Theorem cast_assignable_base_ok i u : cast_assignable_ok (Def i u) u = true /\ cast_assignable_ok u (Def i u) = true.
-Proof. unfold cast_assignable_ok. cbn [true_underlying]. split; apply equal_refl. Qed.
+Proof.
+  unfold cast_assignable_ok. cbn [true_underlying]. change (cast_type_def (Def i u)) with (Some u).
+  rewrite !equal_refl. split.
+  - match goal with |- (if ?c then _ else _) = _ => destruct c end; [|reflexivity]. apply orb_true_r.
+  - match goal with |- (if ?c then _ else _) = _ => destruct c end; reflexivity.
+Qed.
+
+(* never between two definitions of the same base (the defect repaired by /repo 727bc7d) *)
+Theorem cast_assignable_def_distinct i j u :
+  wf_types [Def i u; Def j u] = true -> i <> j -> cast_assignable_ok (Def i u) (Def j u) = false.
+Proof.
+  intros Hwf Hij.
+  destruct (cast_assignable_ok (Def i u) (Def j u)) eqn:A; [exfalso|reflexivity].
+  apply (cast_assignable_def_rule _ _ Hwf eq_refl) in A.
+  assert (Wi : wf_types [Def i u] = true) by (eapply wf_types_incl; [|exact Hwf]; intros x [Hx|[]]; subst; cbn; auto).
+  assert (Wj : wf_types [Def j u] = true) by (eapply wf_types_incl; [|exact Hwf]; intros x [Hx|[]]; subst; cbn; auto).
+  destruct A as [H|[[b [Hb H]]|[b [Hb H]]]].
+  - rewrite def_equal_iff_same_id in H. apply N.eqb_eq in H. contradiction.
+  - inversion Hb; subst b. rewrite equal_sym, (def_opaque j u Wj) in H. discriminate H.
+  - inversion Hb; subst b. rewrite equal_sym, (def_opaque i u Wi) in H. discriminate H.
+Qed.
 
 (* ---- non-vacuity of the hypotheses used above --------------------------------------------------- *)
 Definition ex_zahl := Prim PZahl.
@@ -182,6 +281,7 @@ Example ex_cast_plain_hyp : is_type_def (List ex_nummer) = false /\ is_any (List
 Proof. vm_compute. split; reflexivity. Qed.
 Example ex_cast_distinct_hyp : wf_types [Def 1 ex_zahl; Def 2 ex_zahl] = true /\ 1 <> 2.
 Proof. split; [vm_compute; reflexivity| discriminate]. Qed.
-Example ex_cast_assignable_partial_hyp :
-  wf_types [ex_db; ex_haus] = true /\ cast_assignable_ok ex_db ex_haus = true.
-Proof. vm_compute. split; reflexivity. Qed.
+Example ex_cast_assignable_hyp :
+  wf_types [ex_db; ex_zeiger] = true /\ is_type_def ex_db || is_type_def ex_zeiger = true /\
+  cast_assignable_ok ex_db ex_zeiger = true /\ cast_assignable_ok ex_db ex_haus = false /\ cast_assignable_ok ex_haus ex_zeiger = false.
+Proof. vm_compute. repeat split; reflexivity. Qed.
